@@ -156,6 +156,8 @@ class Pool:
             self.push(h.copy(), a, relatives=(op["a"],))
         elif k == "reload":
             self.push(hg.Factory.fromJson(h.toJson()), a, mutable=False, relatives=(op["a"],))
+        elif k == "immutable":
+            self.push(h.toImmutable(), a, mutable=False, relatives=(op["a"],))
         elif k == "tojson":
             h.toJson()
             h.toJsonString()
@@ -323,7 +325,7 @@ def strategy(tier):
                 "a": ra,
                 "b": rb,
                 "c": draw(gen.recipes(spec, max_rows=6, reload_ok=False, focus=focus)),
-                "op": draw(st.sampled_from(("a+b", "a+b", "b+a", "a*f", "f*a", "copy", "zero", "a+=b"))),
+                "op": draw(st.sampled_from(("a+b", "a+b", "b+a", "a*f", "f*a", "copy", "zero", "toImmutable", "a+=b"))),
                 "f": draw(st.sampled_from((2.0, 0.5, 1.0, 1))),
                 "steps": draw(st.lists(st.tuples(st.sampled_from("abr"), st.sampled_from(("fill", "iadd")), st.integers(0, 5)), min_size=1, max_size=5)),
             }
@@ -539,6 +541,8 @@ def run_derive(case):
         r = a.copy()
     elif op == "zero":
         r = a.zero()
+    elif op == "toImmutable":
+        r = a.toImmutable()
     else:
         r = operator.iadd(a, b)  # r is a; a and b must still be independent afterwards
         before["a"] = snapshot(a)
@@ -547,7 +551,7 @@ def run_derive(case):
         for k in ("a", "b"):
             require(snapshot(objs[k]) == before[k], "interference", lambda: f"{op} changed operand {k}: {norm.fmt(norm.diff(before[k][0], snapshot(objs[k])[0], norm.BITEXACT))}", sig)  # noqa: B023
         objs["r"] = r
-        mutable["r"] = mutable["b"] if op == "b+a" else mutable["a"]
+        mutable["r"] = False if op == "toImmutable" else mutable["b"] if op == "b+a" else mutable["a"]
     names = sorted(objs)
     for i, x in enumerate(names):
         for y in names[i + 1 :]:
@@ -701,7 +705,7 @@ def make_machine(tier, col):
             self.do({"op": "mul", "a": self.pick(data), "f": data.draw(st.sampled_from(FACTORS)), "side": data.draw(st.sampled_from("lr"))})
 
         @precondition(lambda self: len(self.pool.objs) < 9)
-        @rule(data=st.data(), how=st.sampled_from(("zero", "copy", "copy", "reload")))
+        @rule(data=st.data(), how=st.sampled_from(("zero", "copy", "copy", "reload", "immutable")))
         def derive(self, data, how):
             self.do({"op": how, "a": self.pick(data)})
 
